@@ -13,6 +13,7 @@ unchanged, ligand one step from its residue, handed back to its own molecule).""
 import contextlib
 import io
 import json
+import math
 import pathlib
 
 import numpy as np
@@ -549,6 +550,41 @@ def gen_pipeline_case(rng):
     return {'moltypes': moltypes, 'molecules': molecules, 'blocks': blocks, 'split': split}
 
 
+def split_e2e(ctx, n):
+    """complete gen_coords runs with -split on systems in which some residues are split and others are not (F33): the
+    structure is written, lists every atom once in topology order, the named atoms under their new residue names and
+    all other atoms under their old ones"""
+    rng = ctx.rng
+    for _ in range(n):
+        case = gen_pipeline_case(rng)
+        if not case['split']:
+            continue
+        head, *parts = case['split'].split(':')
+        newname = {a: part.split('-')[0] for part in parts for a in part.split('-')[1].split(',')}
+        with systems.Workdir() as wd:
+            res = systems.run_gen_coords(wd, systems.top_text(case['moltypes'], case['molecules']), split=[case['split']],
+                                         box=np.array([8.0, 8.0, 8.0]), timeout=60, maxiter=200, seed=rng.randrange(10 ** 6))
+        want = [(rn if rn != head or an not in newname else newname[an], an)
+                for _, rn, an in systems.expanded_atoms(case['moltypes'], case['molecules'])]
+        unsplit = any(rn != head for _, rn, _ in systems.expanded_atoms(case['moltypes'], case['molecules']))
+        ctx.case(('split_e2e', case['split'], json.dumps(case['molecules']), systems.top_text(case['moltypes'], case['molecules'])),
+                 nontrivial=res['ok'] and unsplit, sample={'split': case['split'], 'molecules': case['molecules'], 'ok': res['ok']})
+        ctx.feature('gen_coords_split_run_ok' if res['ok'] else 'gen_coords_split_run_failed')
+        rep = {'split_e2e': {'moltypes': case['moltypes'], 'molecules': case['molecules'], 'split': case['split']}}
+        if not res['ok']:
+            if res['exc_type'] != 'RunTimeout':
+                ctx.violation('spec', f"gen_coords -split {case['split']!r} fails ({res['exc_type']}: {str(res.get('exception'))[:120]}) on a system in which "
+                              f"{'some residues are' if unsplit else 'no residue is'} left unsplit", rep)
+            continue
+        got = [(r['resname'], r['name']) for r in res.get('rows') or []]
+        if got != want:
+            k = next((i for i, (a, b) in enumerate(zip(got, want)) if a != b), min(len(got), len(want)))
+            ctx.violation('spec', f"gen_coords -split {case['split']!r}: row {k + 1} is {got[k] if k < len(got) else None}, the split assigns "
+                          f"{want[k] if k < len(want) else None} ({len(got)} rows written, {len(want)} atoms)", rep)
+        elif not all(math.isfinite(x) for r in res['rows'] for x in r['xyz']):
+            ctx.violation('spec', f"gen_coords -split {case['split']!r}: a written coordinate is not finite", rep)
+
+
 def pipeline_cases(ctx, n):
     rng = ctx.rng
     for _ in range(n):
@@ -611,6 +647,7 @@ def run(ctx):
             ctx.note(str(exc)[:800])
             ctx.broken.append('correspondence:selection vs model (evaluation failed)')
     pipeline_cases(ctx, ctx.n(40, 400))
+    split_e2e(ctx, ctx.n(8, 60))
     for _lig_k in range(ctx.n(9, 80)):
         case, res, rec = ligand_run(rng, by_name=(_lig_k % 3 == 2))
         if case.get('by_name'):
